@@ -201,14 +201,15 @@ PROPS.update({
         "contracts": [_HR],
         "groups": [{"modules": ["specs.socket_model", "specs.pystruct", "specs.seqdict", "specs.opaque", "specs.daemon_model", "contracts.registry"],
                     "contracts": ["Pyro5.server.Daemon.register", "Pyro5.server.Daemon.unregister", "Pyro5.server.Daemon.uriFor#body",
-                                  "Pyro5.server._pyro_obj_to_auto_proxy", "Pyro5.server.Daemon._unregister_collected", "Pyro5.server.DaemonObject.get_metadata"],
+                                  "Pyro5.server._pyro_obj_to_auto_proxy", "Pyro5.server.Daemon._unregister_collected", "Pyro5.server.DaemonObject.get_metadata",
+                                  "Pyro5.server.Daemon.proxyFor#body", "Pyro5.server.Daemon.resetMetadataCache"],
                     "lemmas": ["C16:registry-frame"]},
                    {"modules": ["specs.socket_model", "specs.pystruct", "specs.seqdict", "specs.opaque", "contracts.type_replacement"],
                     "contracts": ["Pyro5.serializers.JsonSerializer.register_type_replacement", "Pyro5.serializers.MsgpackSerializer.register_type_replacement",
                                   "Pyro5.serializers.JsonSerializer.default#replacement", "Pyro5.serializers.MsgpackSerializer.default#replacement"]}],
         "harness": "replay/dispatch.py",
         "explanation": "dispatch part: the object a request reaches is the registry entry of the request's object id (weak reference unpacked, class instantiated via "
-                       "_getInstance); 'unknown object' is answered only when that entry is None; every invoked member was resolved on that object.  Registry operations (own contract group, stated for one arbitrary id = every id): register puts exactly the new id -> this object (a weak reference to it when weak) into the table, leaves every other id alone, sets _pyroId/_pyroDaemon on the object, takes over an id already in use or re-registers a currently registered object only when forced, never registers a class weakly, refuses (DaemonError / TypeError) without touching the table; unregister (by id or by object) removes exactly that id, never the daemon's own, strips the object's id attributes; uriFor hands out a uri for an object only while its id is registered; the auto-proxy hook replaces an object by one proxy made by its daemon exactly when its id currently designates it (or its class) in the registry and otherwise lets it travel by value; the collection callback of a weak registration (_unregister_collected, bound to the id and to the very weak reference stored) forgets the id exactly while it still holds that reference; DaemonObject.get_metadata answers only for an id with a live entry, from the registry as it is now.  Type replacement tables of the json / msgpack serializers (third group; what turns a registered object into a proxy on its way out): register_type_replacement writes exactly the entry of the given class (refusing non-classes and `type`), default() looks the exact type of the object up in the table as it is at that moment, calls the function found there exactly once on that very object and converts what it returned; nothing is called when no entry exists.  Lemma registry-frame (syntactic): objectsById is rebound / mutated / passed on only by these functions and the constructor.",
+                       "_getInstance); 'unknown object' is answered only when that entry is None; every invoked member was resolved on that object.  Registry operations (own contract group, stated for one arbitrary id = every id): register puts exactly the new id -> this object (a weak reference to it when weak) into the table, leaves every other id alone, sets _pyroId/_pyroDaemon on the object, takes over an id already in use or re-registers a currently registered object only when forced, never registers a class weakly, refuses (DaemonError / TypeError) without touching the table; unregister (by id or by object) removes exactly that id, never the daemon's own, strips the object's id attributes; uriFor hands out a uri for an object only while its id is registered; the auto-proxy hook replaces an object by one proxy made by its daemon exactly when its id currently designates it (or its class) in the registry and otherwise lets it travel by value; the collection callback of a weak registration (_unregister_collected, bound to the id and to the very weak reference stored) forgets the id exactly while it still holds that reference; DaemonObject.get_metadata answers only for an id with a live entry, from the registry as it is now; proxyFor (body) makes exactly one proxy, for the uri uriFor hands out, only for an id under which something is registered now, and gives it the metadata of the object that id designates; resetMetadataCache drops the cached member list exactly of the object its id designates, and only if something is registered there.  Type replacement tables of the json / msgpack serializers (third group; what turns a registered object into a proxy on its way out): register_type_replacement writes exactly the entry of the given class (refusing non-classes and `type`), default() looks the exact type of the object up in the table as it is at that moment, calls the function found there exactly once on that very object and converts what it returned; nothing is called when no entry exists.  Lemma registry-frame (syntactic): objectsById is rebound / mutated / passed on only by these functions and the constructor.",
         "assumptions": _COMMON_ASSUME + ["registry contracts: the registered object is a plain Python object (setting / deleting its Pyro attributes runs no user code), sequential "
                                          "semantics, proxyFor and the type-replacement registration with the serializers as declared; whole histories (falsy, weak, re-used "
                                          "ids, garbage collection) only in the bounded native harness", "GC timing of weak references"],
@@ -220,9 +221,9 @@ PROPS.update({
         "groups": [{"modules": ["specs.socket_model", "specs.pystruct", "specs.seqdict", "specs.opaque", "specs.daemon_model", "contracts.exposure", "contracts.expose_decorator"],
                     "contracts": ["Pyro5.server.expose#class"]},
                    {"modules": _DISPATCH_MODS + ["contracts.exposure", "contracts.exposed_members"],
-                    "contracts": ["Pyro5.server._get_exposed_members#compute"]}],
+                    "contracts": ["Pyro5.server._get_exposed_members#compute", "Pyro5.server._reset_exposed_members"]}],
         "harness": "replay/dispatch.py",
-        "explanation": "_get_exposed_members (third group; the advertised member list, computed on a cache miss by a loop over dir(cls) with an inductive invariant): `methods` holds exactly the listed non-private names whose class attribute is a function / method / method descriptor flagged exposed, `oneway` those of them flagged oneway, `attrs` exactly the non-private names whose class attribute is a data descriptor (and none of the former) whose first accessor is flagged exposed - the same predicates the serving gates test - and that result is what gets cached.  is_private_attribute: every leading-underscore name not of dunder form and every reserved dunder name is private, nothing without a leading "
+        "explanation": "_get_exposed_members (third group; the advertised member list, computed on a cache miss by a loop over dir(cls) with an inductive invariant): `methods` holds exactly the listed non-private names whose class attribute is a function / method / method descriptor flagged exposed, `oneway` those of them flagged oneway, `attrs` exactly the non-private names whose class attribute is a data descriptor (and none of the former) whose first accessor is flagged exposed - the same predicates the serving gates test - and that result is what gets cached under the key (class, only_exposed); _reset_exposed_members (what Daemon.resetMetadataCache calls) drops exactly that key.  is_private_attribute: every leading-underscore name not of dunder form and every reserved dunder name is private, nothing without a leading "
                        "underscore is.  _get_attribute (object model of attribute lookup): a name is served only if it is not private, the class attribute is not a data "
                        "descriptor (so no property getter ever runs while resolving a method name), the instance has the attribute and it is flagged exposed; exactly that "
                        "attribute is returned; every refusal is an AttributeError and runs no code of the object.  _get/_set_exposed_property_value: the accessor that runs "
@@ -324,7 +325,10 @@ PROPS.update({
         "modules": ["specs.socket_model", "specs.pystruct", "specs.seqdict", "specs.opaque", "specs.daemon_model", "specs.strings", "contracts.gateway"],
         "contracts": ["Pyro5.utils.httpgateway.process_pyro_request"],
         "groups": [{"modules": ["specs.socket_model", "specs.pystruct", "specs.seqdict", "specs.opaque", "specs.daemon_model", "specs.strings", "contracts.gateway", "contracts.gateway_app"],
-                    "contracts": ["Pyro5.utils.httpgateway.pyro_app", "Pyro5.utils.httpgateway.singlyfy_parameters#body"]}],
+                    "contracts": ["Pyro5.utils.httpgateway.pyro_app", "Pyro5.utils.httpgateway.singlyfy_parameters#body"]},
+                   {"modules": ["specs.socket_model", "specs.pystruct", "specs.seqdict", "specs.opaque", "contracts.gateway_replies"],
+                    "contracts": ["Pyro5.utils.httpgateway.cors_response_header", "Pyro5.utils.httpgateway.invalid_request#body", "Pyro5.utils.httpgateway.option_request#body",
+                                  "Pyro5.utils.httpgateway.not_found#body", "Pyro5.utils.httpgateway.redirect#body"]}],
         "harness": "replay/c20.py",
         "explanation": "process_pyro_request: every piece of Pyro traffic (name server connection, lookup, metadata fetch, remote attribute fetch, remote call) happens only "
                        "on paths where the configured gateway key was presented (header or $key, as a str whose utf-8 bytes equal the key) and the object name matches the "
@@ -333,7 +337,7 @@ PROPS.update({
                        "(403/404/405) happens without any Pyro traffic; exactly one HTTP status line on every path; the proxy is released.  Second contract group (routing): pyro_app forwards a request to process_pyro_request exactly when its path (leading slashes dropped) starts with "
                        "'pyro/' and its method is GET or POST - with the path behind that prefix, the same environ and start_response, and the parameters parsed ONCE from QUERY_STRING with blank values "
                        "kept (an empty value is a value) and made single; every other request gets exactly one of the fixed replies and nothing is forwarded; singlyfy_parameters (loop invariant) replaces "
-                       "every value that is a list / tuple of exactly one element by that element, keeps every other value, every key and the size.",
+                       "every value that is a list / tuple of exactly one element by that element, keeps every other value, every key and the size.  Third group (the fixed replies the other two groups use by declared interface): invalid_request / option_request / not_found / redirect each call start_response exactly once with their fixed status line (405 / 200 / 404 / 302 + Location = the target) and call nothing else; cors_response_header appends exactly the three CORS headers with the configured origin.",
         "assumptions": ["WSGI environ/start_response, the name-server proxy, client.Proxy (incl. that names starting with '_' would be resolved on the local proxy object), "
                         "JSON and a user supplied expose pattern are modelled / uninterpreted (contracts/gateway.py)",
                         "the split regex (.+)/(.+) as specified; second contract group (routing): urllib.parse.parse_qs uninterpreted (its keep_blank_values argument is observed), the four fixed replies "
